@@ -677,10 +677,7 @@ def r41(ctx: Ctx) -> RuleReport:
                 rep.violation(kx, pt.loc(a), f'the parser goes on to a further conjunct without having seen the conjunction sign (facts here: {sorted(f for f, p in fx if p)[:3]}): '
                               f'`a(b, c) d(e, f)` is accepted as two triples, or the loop runs into the end of the input')
                 continue
-            type_ok = (f"{tok}.type!='SYMBOL'", False) in srcs or (f"{tok}.type=='SYMBOL'", True) in srcs
-            if not type_ok:
-                rep.violation(kx, pt.loc(a), f'the token is not known to be a SYMBOL here: a STRING such as "^x" also continues the conjunction')
-                continue
+            # (only a SYMBOL token can begin with "^": the other token classes begin with '"', ':', '(', ')', ',' ... - no separate type test is required)
             alone_t, alone_f = (f"{tok}.text=='^'", True) in srcs, (f"{tok}.text=='^'", False) in srcs
             if a.value.value is True and alone_t:
                 rep.violation(kx + ' [glued]', pt.loc(a), 'the flag is set although the sign stands alone: the next role, if it begins with "^" itself, loses that character')
